@@ -166,6 +166,12 @@ pub fn run(ctx: &Ctx) -> i32 {
                 let (mut b, map) = encode(&compile_with(&sp, &mut rng, &v, &palprog));
                 let p = patch(&mut b, &map, ":layer.blend", which, t as u64);
                 desc = format!("blend mode {} at {:?}", t, p);
+                if rng.chance(1, 3) {
+                    // a pre-1.0 style header (bit 0 of the header flags, "layer opacity has a valid value", clear):
+                    // the blend mode field is decoded all the same
+                    b[14] &= !1;
+                    desc.push_str(" (header flag 'layer opacity valid' clear)");
+                }
                 b
             }
             8 if i % 3 == 2 && sp.layers.iter().any(|l| l.kind == LayerKind::Group) => {
